@@ -266,10 +266,18 @@ func (r *Run) hook(name string, ctx context.Context) {
 		r.poke()
 	}
 	ds := r.Sc.HookDelays[name]
-	if len(ds) == 0 {
+	var d time.Duration
+	if len(ds) > 0 {
+		d = ds[mixu(r.Sc.HookSeed^strh(name)^mixu(uint64(hit)))%uint64(len(ds))]
+	}
+	if len(r.Sc.DelayAt) > 0 {
+		if x, ok := r.Sc.DelayAt[fmt.Sprintf("%s#%d", name, hit)]; ok {
+			d = x
+		}
+	}
+	if d == 0 {
 		return
 	}
-	d := ds[mixu(r.Sc.HookSeed^strh(name)^mixu(uint64(hit)))%uint64(len(ds))]
 	if r.Stress {
 		for i := 0; i < int(d%5); i++ {
 			runtime.Gosched()
